@@ -27,7 +27,7 @@ META = {
     "exhaustive_tiers": {"quick": {"histories of length <= 2 over 12 operations x 13 configurations": True},
                          "thorough": {"histories of length <= 3 over 12 ops + length 4 over 6 state-touching ops x 13 configurations": True}},
 }
-META["added"] = "Added: in-memory forecasts without n_cat (13 configurations), spatial_counts(cartesian=True) as a twelfth operation, empty-first catalog layouts. in-memory catalogs that only declare the forecast's filter statements. region-less in-memory catalogs, reference = equivalent pre-filtered plain forecast."
+META["added"] = "Added: in-memory forecasts without n_cat (13 configurations), spatial_counts(cartesian=True) as a twelfth operation, empty-first catalog layouts. in-memory catalogs that only declare the forecast's filter statements. region-less in-memory catalogs, reference = equivalent pre-filtered plain forecast. empty observations, id gaps in files, catalogs bound to another region."
 MANIFEST = {
     "technique": "sequential history log on a live CatalogForecast checked op-by-op against a reference model (filtered catalog list) and, for evaluations, against the equivalent pre-filtered plain forecast; quiescent-state invariant after each complete operation; exhaustive short histories + random long ones",
     "level_text": "All operation histories up to length 2 (quick) / 3-4 (thorough) over the 12 public operations are enumerated on 13 source/filter configurations; each step's observable result (pass stream, event counts, n_cat, expected rates, marginals, the six evaluations) must equal the single-pass reference regardless of what was called before, and the iterator must be back in its initial state after every complete operation.",
@@ -83,6 +83,8 @@ def gen_forecast(rng, cfg):
     for q in range(int(rng.integers(1, 6))):
         i, j = int(rng.integers(0, nx)), int(rng.integers(0, ny))
         obs.append(("o%d" % q, 1262304000000 + q, ay + (j + 0.5) * dh, ax + (i + 0.5) * dh, 5.0, float(mags[int(rng.integers(0, 4))] + 0.03)))
+    if rng.uniform() < 0.15:
+        obs = []          # an observed catalog without events: the tests signal it, and must still leave the forecast ready for the next pass
     return {"cats": cats, "obs": obs, "grid": [nx, ny, dh, ax, ay]}
 
 
@@ -120,6 +122,10 @@ def build(fc, cfg, tmpdir):
         cats = []
         # every other forecast: the in-memory catalogs carry no region of their own (the forecast's region is bound to them when they are gridded)
         creg = reg if len(fc["cats"]) % 2 else None
+        if len(fc["cats"]) % 3 == 2 and reg.num_nodes > 1:
+            # ... or arrive bound to ANOTHER region object (same cells listed in reverse, other magnitude edges)
+            from csep.core.regions import CartesianGrid2D
+            creg = CartesianGrid2D.from_origins(reg.origins()[::-1].copy(), dh=reg.dh, magnitudes=numpy.asarray(mags) + 0.05)
         for i, evs in enumerate(fc["cats"]):
             if kw["filters"] and i % 3 == 1:
                 # the catalog only DECLARES the forecast's filter statements (constructor argument); nothing has been applied to it
@@ -136,7 +142,8 @@ def build(fc, cfg, tmpdir):
     else:
         path = os.path.join(tmpdir, "forecast.csv")
         if not os.path.exists(path):
-            c12.write_file(path, [[tuple(e) for e in evs] for evs in fc["cats"]], [True] * len(fc["cats"]), True, "frac")
+            # empty catalogs are written as marker rows or simply omitted (id gaps, leading missing ids), alternating
+            c12.write_file(path, [[tuple(e) for e in evs] for evs in fc["cats"]], [bool((i + len(fc["cats"])) % 2) for i in range(len(fc["cats"]))], True, "frac")
         f = csep.load_catalog_forecast(path, store=(cfg["source"] == "file_store"), **kw)
     obs = CSEPCatalog(data=list(fc["obs"]), region=reg, name="obs")
     return f, obs, reg
